@@ -1,6 +1,6 @@
 # C14 - generator aggregator: union of all sources, per-source order preserved
 import re
-from ..core import Item, norm, relloc, live, calls, evs, Broken, value_origin, Tracer, fmt_trace, rooted, has_back_edge, cond_event
+from ..core import Item, norm, relloc, live, calls, evs, Broken, value_origin, Tracer, fmt_trace, rooted, has_back_edge, cond_event, pos
 from ..rules import *
 from . import C09
 
@@ -102,7 +102,8 @@ def startup(ctx, db):
             evl += [Item(x, recv=(x.get('recv') or '').replace('capture:', 'local:')) if x.get('recv') else x for x in lf_.events()]
         res = [e for e in evl if e.k == 'call' and norm(e.get('callee')) == 'std::vector::reserve' and e.get('recv') == 'local:cbs']
         emp = [e for e in evl if e.k == 'call' and norm(e.get('callee')) in ('std::vector::emplace_back', 'std::vector::push_back') and e.get('recv') == 'local:cbs']
-        if not emp:
+        if not emp and not any(it.k == 'call' and norm(it.get('callee')) in ('std::vector::emplace_back', 'std::vector::push_back') and it.get('recv') == 'local:cbs' for tr in T.traces(f)[:400] for it in tr):
+            # (a helper expanded in place - _details::add_source(cbs, queue, x) - emplaces into the vector it was handed)
             raise Broken('aggregator no longer emplaces callbacks: anchor changed')
         if len(res) != 1 or (res[0].get('args') or [{}])[0].get('path') != 'call(std::vector::size)':
             seen_bad = seen_bad or (f, 'the callback vector does not reserve the source count: emplace_back relocates callbacks that were already published by address')
@@ -147,11 +148,18 @@ def callback(ctx, db):
     if not lams:
         raise Broken('GenCallback resume function not found')
     lf = lams[0]
-    ps = [e for e in lf.events() if e.k == 'call' and norm(e.get('callee')) == 'cocls::queue::push']
-    ok = len(ps) == 1 and not has_back_edge(lf) and (ps[0].get('args') or [{}])[0].get('path') in ('local:_this',) or (len(ps) == 1 and 'static_cast' in str(ps[0]) and False)
-    if len(ps) == 1 and not ok:
-        a = (ps[0].get('args') or [{}])[0].get('path') or ''
-        ok = a.startswith(('local:', 'param:me')) and not has_back_edge(lf)
+    # directly or through a helper of the callback (static_cast<GenCallback *>(me)->enqueue()): on every path one push of the callback itself
+    ok = not any(has_back_edge(g) for g in [lf] + helper_bodies(db, lf))
+    trs_ = [t for t in htracer(db).traces(lf) if live(t)]
+    ok = ok and bool(trs_)
+    p0 = 'param:' + (lf['params'][0]['name'] if lf.get('params') else 'me')
+    for tr in trs_:
+        ps = [it for it in tr if it.k == 'call' and norm(it.get('callee')) == 'cocls::queue::push']
+        a = ((ps[0].get('args') or [{}])[0].get('path') or '') if len(ps) == 1 else ''
+        # what is pushed is the resumed awaiter itself: the first parameter, or a local cast from it
+        src = origin_in_trace(tr, pos(tr, ps[0]), a)[0] if len(ps) == 1 and a.startswith('local:') else a
+        if len(ps) != 1 or src != p0:
+            ok = False
     ctx.ob(rid, lf, lf['key'], bool(ok), 'resume function pushes its own callback once', desc='GenCallback resume function does not enqueue itself exactly once')
     for f in db.need(CHARGE)[:2]:
         ss = [e for e in f.events() if e.k == 'call' and norm(e.get('callee')) == 'cocls::generator::next_awt::subscribe']
@@ -160,22 +168,51 @@ def callback(ctx, db):
         ctx.ob(rid, f, f['key'], ok, 'charge: _gen.next(args).subscribe(this) once', desc='GenCallback::charge does not subscribe this callback to its own generator once')
 
 
+def _more_than_one(path):
+    """is the condition equivalent to  _count > 1  (count > 1, count >= 2, 1 < count, count - 1 > 0 ...)?"""
+    m = re.fullmatch(r'\((.+) (>|>=|<|<=) (.+)\)', path)
+    if not m:
+        return False
+    a, b = linform(m.group(1)), linform(m.group(3))
+    if a is None or b is None:
+        return False
+    d = {k: a.get(k, 0) - b.get(k, 0) for k in set(a) | set(b)}
+    d = {k: v for k, v in d.items() if v or k == ''}
+    o = m.group(2)
+    if set(d) - {'this->_count', ''}:
+        return False
+    k, c = d.get('this->_count', 0), d.get('', 0)
+    if k == -1:
+        k, c, o = 1, -c, {'>': '<', '>=': '<=', '<': '>', '<=': '>='}[o]
+    if k != 1:
+        return False
+    # count + c  o  0
+    return (o == '>' and c == -1) or (o == '>=' and c == -2)
+
+
 def drain(ctx, db):
     rid = ctx.rule('C14.drain', 'PATHS+ORDER', 'the controller\'s destructor waits for every outstanding asynchronous source: a loop whose only exit is the test that at most one source is counted, each '
                    'iteration blocks on one completion and decrements the count by one; the controller is declared after the queue and the callbacks (destroyed before them)', floor=2)
     T = htracer(db, maxvisit=3)
     for f in db.need('cocls::_details::generator_aggregator_controller::~generator_aggregator_controller')[:1]:
         bad = None
-        if not has_back_edge(f):
+        if not any(has_back_edge(g) for g in [f] + helper_bodies(db, f)):
             bad = 'the destructor does not loop: outstanding sources are not waited for'
-        conds = [b['cond'] for b in f['blocks'] if b.get('cond')]
         if not bad:
-            for c in conds:
-                if not re.fullmatch(r'\(this->_count > 1\)|\(this->_count >= 2\)|\(1 < this->_count\)', c.get('path') or ''):
-                    bad = 'the drain loop has an exit that does not depend on the number of outstanding sources only (%s): a pending source may resume into a destroyed aggregate' % c.get('path')
+            # every test of the destructor itself (a predicate helper is read through to what it returned) says "more than one source is counted"
+            nb = 0
+            for tr in T.traces(f):
+                for it in tr:
+                    if it.k == 'branch':
+                        nb += 1
+                        if not _more_than_one(it.path or ''):
+                            bad = bad or 'the drain loop has an exit that does not depend on the number of outstanding sources only (%s): a pending source may resume into a destroyed aggregate' % (it.path or it.get('opath'))
+            if nb == 0:
+                bad = 'the destructor does not test the number of outstanding sources'
+
         if not bad:
             for tr in [t for t in T.traces(f) if live(t)]:
-                loops = [i for i, it in enumerate(tr) if it.k == 'branch' and it.term == 'WhileStmt' and it.get('depth', 0) == 0]
+                loops = [i for i, it in enumerate(tr) if it.k == 'branch' and it.term in ('WhileStmt', 'ForStmt', 'DoStmt')]
                 for a in range(len(loops) - 1):
                     seg = tr[loops[a]:loops[a + 1]]
                     pops = sum(1 for it in seg if it.k == 'call' and norm(it.get('callee')) == 'cocls::queue::pop')
